@@ -31,3 +31,10 @@ package ip4defrag
 //@   props C13
 //@   ensures result0 != nil ==> result0.Flags == 0 && result0.FragOffset == 0 && result0.IHL == in.IHL
 //@   ensures result0 != nil ==> result0.Length == wrap16(in.IHL * 4 + f.Highest)
+
+// The reassembly key of a fragment is its source address, destination address (in this order) and IP id: fragments of
+// datagrams travelling in opposite directions between the same hosts, or with different ids, never share a list.
+//@ func newIPv4(ip *layers.IPv4) ipv4
+//@   props C13
+//@   requires len(ip.SrcIP) <= 16 && len(ip.DstIP) <= 16
+//@   ensures flowOf(result.ip4, ip.SrcIP, ip.DstIP) && result.id == ip.Id
